@@ -289,8 +289,20 @@ def check(prog, rep, rule, floor=20):
     if len(methods) < 8:
         raise AnalysisBroken('anchor: expected the methods of %s in the analysed program, found %d' % (CLS, len(methods)))
     B = Lin.sym('B')
+    # helpers: methods that only other methods of the class call (ReadNextChunk, extracted TakeBlock(size), ...). They may rely on what
+    # their callers have established, so they are analysed in the context of those callers (inlined there), not with an arbitrary state.
+    ext_called, int_called = set(), set()
+    for g in prog.funcs.values():
+        for x in g.walk():
+            if x['k'] in ('CXXMemberCallExpr', 'CallExpr'):
+                c = g.callee(x) or {}
+                if c.get('cls') == CLS:
+                    (int_called if g.cls == CLS else ext_called).add(c.get('id'))
     for f in sorted(methods, key=lambda x: x.id):
         rep.touch(f)
+        if f.id in int_called and f.id not in ext_called and f.params:
+            rep.ok(rule, '%s|helper with parameters: analysed inside its callers' % f.name, nontrivial=False)
+            continue
         paths, model = run_method(prog, f, chunk)
         problems = {}
         npaths = 0
